@@ -78,6 +78,7 @@ def triage_enum(repo, res):
     (vsa.enumproof decides that from the source: closed set of stored members, every member excluded on the path)."""
     from .. import enumproof
     proven = {fname for fname, _ in enumproof.infeasible_raises(repo)}
+    proven |= {repo.public_owner("lexer", None, fname)[1] for fname in proven}      # the name the engine reports it under
     for f in list(res.findings):
         if f.rule in ("T3", "T1") and f.function in proven and "raise ValueError" in f.key:
             res.triage(f, f"infeasible: every dict the lexer builds stores a member of the Preserve enum under 'state' and "
